@@ -328,6 +328,7 @@ struct FaultReader {
     pos: usize,
     calls: u64,
     fail_at: Option<u64>,
+    first_chunk: Option<usize>,
     log: std::rc::Rc<std::cell::RefCell<Vec<&'static str>>>,
 }
 
@@ -342,11 +343,15 @@ impl std::io::Read for FaultReader {
             }
         }
         let rest = &self.data[self.pos..];
-        let n = match rest.iter().position(|b| *b == b'\n') {
+        let mut n = match rest.iter().position(|b| *b == b'\n') {
             Some(i) => i + 1,
             None => rest.len(),
         }
         .min(buf.len());
+        // chunk plan: the very first read delivers only a prefix of the first line (a legal short read)
+        if let Some(k) = self.first_chunk.take() {
+            n = n.min(k);
+        }
         buf[..n].copy_from_slice(&rest[..n]);
         self.pos += n;
         Ok(n)
@@ -366,7 +371,7 @@ fn op_program(req: &J) -> J {
     let stdin = req.get("stdin").str().to_string();
     let log = std::rc::Rc::new(std::cell::RefCell::new(Vec::new()));
     let mut out = FaultWriter { data: Vec::new(), lines: 0, fail_at: opt_u64(req.get("out_fail_at")), zero: req.get("out_fail_mode").str() == "zero", log: log.clone(), at_line_start: true };
-    let input = FaultReader { data: stdin.into_bytes(), pos: 0, calls: 0, fail_at: opt_u64(req.get("in_fail_at")), log: log.clone() };
+    let input = FaultReader { data: stdin.into_bytes(), pos: 0, calls: 0, fail_at: opt_u64(req.get("in_fail_at")), first_chunk: opt_u64(req.get("in_first_chunk_bytes")).map(|k| k as usize), log: log.clone() };
     let mut res = Vec::new();
     match rrss::frontend::parser::parse(&src) {
         Err(e) => {
